@@ -10,6 +10,8 @@ def main():
     pid = sys.argv[1]
     tier = sys.argv[2] if len(sys.argv) > 2 else os.environ.get("VERIF_TIER", "quick")
     seed = int(os.environ.get("VERIF_SEED", "1"))
+    if tier == "thorough":
+        os.environ.setdefault("VERIF_XCHECK", "1")
     mod = importlib.import_module("checks." + pid.lower())
     if len(sys.argv) > 3 and sys.argv[2] == "--replay":
         sys.exit(mod.replay(sys.argv[3]))
